@@ -512,7 +512,7 @@ def model_expr(name: str, p, m, conv: Conv, info, before: str, base: int) -> str
     if name == "rmfunc":
         return f"(remove_unused_funcs {FUEL} {before})"
     if name == "defattr":
-        return f"(add_default_attrs {defaults_table(m, conv)} {before})"
+        return f"(add_default_attrs {defaults_table(m, conv)} {FUEL} {before})"
     return None
 
 
